@@ -1437,6 +1437,16 @@ func runPubNB(c *core.Ctx) {
 	}
 	fns := moduleReach(c, pub)
 	c.CountFuncs(len(fns))
+	// what runs inside the walk (the function literals handed to the table's Loop, and everything they
+	// reach) runs under the table's read lock
+	underWalk := map[*ssa.Function]bool{}
+	for _, fn := range fns {
+		if fn.Parent() != nil {
+			for _, g := range moduleReach(c, fn) {
+				underWalk[g] = true
+			}
+		}
+	}
 	var bad []string
 	for _, fn := range fns {
 		for _, op := range an.ChanOps(fn) {
@@ -1454,6 +1464,12 @@ func runPubNB(c *core.Ctx) {
 		for _, ci := range calls(fn) {
 			n := an.CalleeName(ci.Common())
 			if n == "(*sync.RWMutex).Lock" || n == "(*sync.Mutex).Lock" {
+				// a table update made after the walk, outside its read lock (`for _, id := range gone {
+				// subs.UnsubscribeAll(id) }`), by a method of the table type that does nothing but the update:
+				// it waits for other walkers and updates, none of which waits for a subscriber
+				if !underWalk[fn] && recvTypeName(fn) == "safeMap" && len(an.ChanOps(fn)) == 0 && onlyLockAndBuiltinCalls(fn) {
+					continue
+				}
 				bad = append(bad, fname(c, fn)+" takes an exclusive lock ("+P.Pos(ci.Pos())+")")
 			}
 			if strings.HasSuffix(n, "Handler.ServeNostr") {
@@ -1583,6 +1599,20 @@ func funcCellCalledSynchronously(cell ssa.Value, depth int) bool {
 		default:
 			return false
 		}
+	}
+	return true
+}
+
+// onlyLockAndBuiltinCalls: fn calls nothing but sync lock operations and builtins (a plain table update).
+func onlyLockAndBuiltinCalls(fn *ssa.Function) bool {
+	for _, ci := range calls(fn) {
+		if _, isB := ci.Common().Value.(*ssa.Builtin); isB {
+			continue
+		}
+		if strings.HasPrefix(an.CalleeName(ci.Common()), "(*sync.") {
+			continue
+		}
+		return false
 	}
 	return true
 }
